@@ -830,7 +830,8 @@ def gen_c13(rng, tier):
             elif r < 0.65:
                 ops.append("S:x:e1:%s" % rng.choice(["m5short", "m5empty", "m5flip", "m5inner", "m5zerokey", "badstep", "badmethod", "garbage", "m5first", "a0", "aempty"]))
             elif r < 0.8:
-                ops.append("V:x:c0:%s" % rng.choice(["short0", "short7", "short15", "short16", "flip", "zerokey", "inner-garbage", "keylen0", "keylen33", "finishfirst", "garbage", "unknown"]))
+                ops.append("V:x:c0:%s" % rng.choice(["short0", "short7", "short15", "short16", "flip", "zerokey", "inner-garbage", "keylen0", "keylen33", "finishfirst", "garbage", "unknown",
+                                                      "startzerokeep", "startlow1", "startlow2", "startlow3", "startlow4", "startlow5", "startlow6"]))
             elif r < 0.82 and state == "verified":
                 # an "ev" member that is not a boolean, on observable and non-observable characteristics
                 ops.append("P:x:%s:-:%s" % (rng.choice(["2.9", "4.13", "3.12", "4.14"]), rng.choice(["st", "s1", "n1", "n0"])))
@@ -850,6 +851,21 @@ def gen_c13(rng, tier):
         if state == "verified":
             ops += ["A:x", "P:x:2.9:false:-"]
         mk(cases, "robust", ops, {"state": state})
+    # directed: pair-verify starts whose public key is a point of small order; pair-setup exchanges abandoned half way
+    # (connection closed after M2 / after M4) must not keep anybody else from pairing
+    ops = ["N:h", "S:h:c0:ok", "N:x"] + ["V:x:c0:%s" % v for v in ["startzerokeep", "startlow1", "startlow2", "startlow3", "startlow4", "startlow5", "startlow6"]]
+    ops += ["S:x:n1:ok", "S:x:n1:ok", "ST", "V:x:c0:ok", "V:x:c0:ok", "G:x:2.9", "N:y", "S:y:n2:ok", "N:z", "V:z:n2:ok", "G:z:2.9", "A:z", "P:z:2.9:true:-", "ST"]
+    mk(cases, "robust", ops, {"state": "fresh"})
+    for pre in (["S:x:e1:start"], ["S:x:e1:start", "S:x:e1:m3"], ["S:x:e1:start", "S:x:e1:m3wrong"]):
+        ops = ["N:h", "S:h:c0:ok", "N:x"] + pre + ["K:x", "N:y", "S:y:n2:ok", "N:z", "V:z:n2:ok", "G:z:2.9", "A:z", "P:z:2.9:true:-", "ST"]
+        mk(cases, "robust", ops, {"state": "abandoned"})
+    # directed: a pairing whose long-term public key has the wrong length (added by an admin), then somebody verifies under it;
+    # a key exchange of pair-setup that delivers such a key
+    for k in ["addshortkey", "addlongkey"]:
+        for vv in ["ok", "badsig"]:
+            ops = ["N:h", "S:h:c0:ok", "N:x", "V:x:c0:ok", "R:x:odd:%s" % k, "N:q", "V:q:odd:%s" % vv, "K:q",
+                   "N:y", "S:y:n2:ok", "N:z", "V:z:n2:ok", "G:z:2.9", "A:z", "P:z:2.9:true:-", "ST", "A:x", "P:x:2.9:false:-"]
+            mk(cases, "robust", ops, {"state": "verified"})
     # directed: type errors inside an otherwise well-formed write of a verified controller must not wedge anything
     for cid in ["2.9", "3.12", "4.14", "4.13"]:
         for ev in ["st", "s1", "n1", "n0"]:
@@ -884,7 +900,7 @@ def oracle_c13(c, obs):
         xdead0 = any(t.endswith("closed") or t.endswith("noconn") for o, t in pairs if o.split(":")[1:2] == ["x"] and o.split(":")[0] in ("X",))
         if not xdead0 and not (last["A:x"].startswith("A=200") and last.get("P:x:2.9:false:-", "").startswith("P=204")):
             return "after the malformed input the verified connection is no longer served: %s %s" % (last["A:x"][:30], last.get("P:x:2.9:false:-", "")[:30])
-    if c["meta"]["state"] != "verified":
+    if c["meta"]["state"] not in ("verified", "abandoned"):
         # plaintext X ops can have closed x only if x was verified; otherwise the same connection must recover
         xdead = any(t.endswith("closed") or t.endswith("noconn") for o, t in pairs if o.split(":")[1:2] == ["x"])
         tries = [t for o, t in pairs if o == "S:x:n1:ok"]
